@@ -393,7 +393,11 @@ def c10_programs(seed, tier):
 
 # ------------------------------------------------------------------------------------------ C04 / C14
 SPECIAL_STRINGS = ["", " ", " \t ", "plain", "<", "&", "a<b&c>d", "]]>", "x]]>y]]>z", "\"'", "a\tb\nc", "\U0001F600\U0001D518", "<![CDATA[x]]>",
-                   " pad ", "&amp;&lt;", "</name>", "%s{}\\", "äöü€", "L" * 5000]
+                   " pad ", "&amp;&lt;", "</name>", "%s{}\\", "äöü€", "L" * 5000,
+                   # carriage returns (an XML parser turns a literal CR or CR LF into LF) and the C1 / noncharacter neighbours that ARE XML characters
+                   "a\rb", "x\r\ny", "\r", "\r\n\r", "\x7f\x85\u2028", "\ud7ff\ue000\ufffd"]
+# strings XML 1.0 cannot represent at all (not even by character references): they cannot be stored faithfully
+NON_XML_STRINGS = ["\x01", "a\x00b", "tab\x0bvertical", "\x1f", "\ufffe", "x\uffffy"]
 SPECIAL_FLOATS = [0.0, -0.0, 5e-324, 2.2250738585072014e-308, 1.7976931348623157e308, -1.7976931348623157e308, float("inf"), float("-inf"),
                   float("nan"), 0.1, 1e300, -123456.789, 1e-5, 1e16, 123456789012345680.0, 9.999999999999999e22]
 PC_STR = ["name", "description", "sensor_vendor", "sensor_model", "sensor_serial", "sensor_hw", "sensor_sw", "sensor_fw"]
@@ -489,6 +493,14 @@ def c04_programs(seed, tier):
                  pc(p0, 1, guid=s, setters=pc_setters_all("S", sval=s)),
                  image([rep("visual", 5)], guid=s, setters=[setter(f, s) for f in IM_STR]), FIN]
         out.append(prog(f"string{i}", steps))
+    # characters XML cannot represent, in one string position at a time: finalize must refuse (nothing else can report it)
+    for i, s in enumerate(NON_XML_STRINGS):
+        out.append(prog(f"nonxml_coord{i}", [new("g"), {"op": "coord", "v": s}, FIN], nonxml=True))
+        out.append(prog(f"nonxml_pcname{i}", [new("g"), pc(p0, 1, setters=[setter("name", s)]), FIN], nonxml=True))
+    out.append(prog("nonxml_guid", [new("g\x02"), FIN], nonxml=True))
+    out.append(prog("nonxml_pcguid", [new("g"), pc(p0, 1, guid="p\x03"), FIN], nonxml=True))
+    out.append(prog("nonxml_imname", [new("g"), image([rep("visual", 5)], setters=[setter("description", "d\x04")]), FIN], nonxml=True))
+    out.append(prog("nonxml_exturl", [new("g"), {"op": "ext", "ns": "ext", "url": "urn:\x05"}, FIN], nonxml=True))
     # floats in every float position at once
     for i, x in enumerate(SPECIAL_FLOATS):
         steps = [new("g"), {"op": "creation", "v": dt(x, i % 2 == 0)},
@@ -500,7 +512,7 @@ def c04_programs(seed, tier):
         for ri, reps in enumerate(all_reps(mask=mask)):
             out.append(prog(f"rep{ri}_{mi}", [new("g"), image(reps, guid=f"im{ri}"), FIN]))
     # extension urls
-    for i, url in enumerate(["http://example.com/a?b=1&c=2", "urn:x<y", "quote\"inside", "plain", "http://ä.example/\U0001F600"]):
+    for i, url in enumerate(["http://example.com/a?b=1&c=2", "urn:x<y", "quote\"inside", "plain", "http://ä.example/\U0001F600", "tab\there", "line\nfeed", "carriage\rreturn", " lead and trail "]):
         out.append(prog(f"exturl{i}", [new("g"), {"op": "ext", "ns": "ext", "url": url}, pc(p0 + [rec("foo", "int", 0, 9, ns="ext")], 2), FIN]))
     # limit overrides (complete ones are stored as given), resets
     lim_cases = [
